@@ -26,6 +26,10 @@ theorem ckProd_ok (k : Kern) {v : ℤ} (h0 : 0 ≤ v) (h : v ≤ k.prodMax) : ck
   · rfl
   · omega
 
+theorem plainKern_prodMax (w : ITy) : (plainKern w).prodMax = 2 ^ 63 - 1 := by
+  unfold plainKern
+  split_ifs <;> rfl
+
 theorem accU_ok {M : ℕ} {s v : ℤ} (h0 : 0 ≤ v) (h : s + v ≤ M) : accU M s v = .ok (s + v) := by
   unfold accU
   rw [if_neg (by omega), if_pos h]
@@ -411,5 +415,40 @@ theorem easyB_le_total (hv : t.Valid) {x y z c : ℕ} (hy : y ≤ t.bound) (hc3 
     rw [mem_Ioc] at hb'
     exact easyB_nonneg (by omega)
   · rw [mem_Ioc]; exact ⟨hb1, hb2⟩
+
+/-- a level has at most `π(y)` leaves, each worth at most `π(y) + 1` (every `x / (p b · p i)` the level looks up is `≤ y`) -/
+theorem easyB_le_sq {x y z b : ℕ} (hb1 : 1 ≤ b) (hby : b ≤ π y) (hoob : x / (z + 1) ≤ y) :
+    easyB x y z b ≤ (((π y + 1) * π y : ℕ) : ℤ) := by
+  have hqy : Spec.p b ≤ y := (Spec.p_le_iff hb1).2 hby
+  unfold easyB
+  set ms := inBetweenN (Spec.p b) (z / Spec.p b) y with hms
+  set mt := min (x / Spec.p b / Spec.p b) y with hmt
+  have hterm : ∀ i ∈ Ioc (π ms) (π mt), val (x / Spec.p b) b i ≤ ((π y + 1 : ℕ) : ℤ) := by
+    intro i hi
+    rw [mem_Ioc] at hi
+    have hi0 : 1 ≤ i := by omega
+    have h1 : ms < Spec.p i := (Spec.lt_p_iff hi0).2 hi.1
+    have h2 : Spec.p i ≤ y := le_trans ((Spec.p_le_iff hi0).2 hi.2) (min_le_right _ _)
+    have h3 : z / Spec.p b < Spec.p i := by
+      rw [hms, inBetweenN_eq hqy] at h1
+      rcases le_total (max (Spec.p b) (z / Spec.p b)) y with h | h
+      · rw [min_eq_left h] at h1; exact lt_of_le_of_lt (le_max_right _ _) h1
+      · rw [min_eq_right h] at h1; omega
+    have h4 := sparse_reads (Spec.p_pos b) hoob _ h3 h2
+    have h5 := Spec.pi_mono h4
+    unfold val
+    push_cast
+    omega
+  have hsum := Finset.sum_le_card_nsmul _ _ _ hterm
+  rw [Nat.card_Ioc, nsmul_eq_mul] at hsum
+  have hc : π mt - π ms ≤ π y := by
+    have : π mt ≤ π y := Spec.pi_mono (min_le_right _ _)
+    omega
+  have hc' : ((π mt - π ms : ℕ) : ℤ) ≤ (π y : ℤ) := by exact_mod_cast hc
+  refine le_trans hsum ?_
+  push_cast
+  have h0 : (0 : ℤ) ≤ (π y : ℤ) + 1 := by positivity
+  calc ((π mt - π ms : ℕ) : ℤ) * ((π y : ℤ) + 1) ≤ (π y : ℤ) * ((π y : ℤ) + 1) := mul_le_mul_of_nonneg_right hc' h0
+    _ = ((π y : ℤ) + 1) * (π y : ℤ) := by ring
 
 end Pc.Easy
